@@ -144,6 +144,11 @@ class KGUndefined:
     def __repr__(self):
         return ":undefined"
 
+    def __reduce__(self):
+        # :undefined is recognised by identity: unpickling (IPC transport, key-value store)
+        # and copying must give back the one KLONG_UNDEFINED object
+        return 'KLONG_UNDEFINED'
+
     def __str__(self):
         return ":undefined"
 
